@@ -166,7 +166,7 @@ def strategies():
                 x=draw(st.integers(-50, 50)) * scale if placed else 0,
                 y=draw(st.integers(-50, 50)) * scale if placed else 0,
                 o=draw(st.integers(0, 7)) if placed else 0,
-                fixed=draw(st.booleans()), obs=True))
+                fixed=draw(st.booleans()), obs=draw(st.booleans())))
         rows = []
         nr = draw(st.integers(1, 5))
         rh = draw(st.integers(1, 12)) * scale
